@@ -19,7 +19,7 @@ INVS = ["HookAtMostOnce", "ClosedIsClean", "HookMeansClosed", "NoInventedValue",
 
 
 class Fixture(object):
-    def __init__(self, fault=None, frag=None, timeout=None, log_events=True):
+    def __init__(self, fault=None, frag=None, timeout=None, log_events=True, b_serve_all=False):
         import rpyc
         fx = self
         self.hooks = {"A": 0, "B": 0}
@@ -52,9 +52,14 @@ class Fixture(object):
             def exposed_callme(self, f, x):
                 return f(x) + 1
 
+            def exposed_stuck(self, d):
+                fx.simtime.sleep(d)        # a handler that keeps this side busy for d virtual seconds
+                return d
+
         cfg = {"sync_request_timeout": timeout}
         self.pair = p = Pair(Svc("A"), Svc("B"), config_a=dict(cfg), config_b=dict(cfg), transport="socket",
-                             script=self.script, serve_eof=True)
+                             script=self.script, serve_eof=True, serve_all_sides=("B",) if b_serve_all else ())
+        self.simtime = sim.SimTime(p.sched)
         self.white = True
         for side in (p.a, p.b):
             self._wrap(side)
@@ -148,15 +153,20 @@ WORKLOADS = {
 CLOSE_ORDERS = ["single", "other-first", "both"]
 
 
-def run(chk, wname, fault=None, frag=None, timeout=None, close_order="single", judge=None):
+def run(chk, wname, fault=None, frag=None, timeout=None, close_order="single", judge=None, b_serve_all=False):
     """one execution; returns (events, outcomes, problems, n_transport_calls, ops)"""
-    fx = Fixture(fault=fault, frag=frag, timeout=timeout)
+    fx = Fixture(fault=fault, frag=frag, timeout=timeout, b_serve_all=b_serve_all)
     p = fx.pair
     problems = []
     outcomes = {}
     values = {}
     expected = {}
     steps = list(WORKLOADS[wname])
+    if b_serve_all:
+        steps = [st for st in steps if st[0] == "A"]
+        if not steps or steps[-1][2] != "close":
+            steps.append(("A", "c", "close", None))
+        close_order = "single"
     closer = steps[-1][0]
     other = "B" if closer == "A" else "A"
     if close_order == "other-first":
@@ -254,6 +264,12 @@ def run(chk, wname, fault=None, frag=None, timeout=None, close_order="single", j
         except sim.Deadlock as ex:
             problems.append(("hang", "at the end: %s" % ex))
         boundary("at quiescence")
+        if b_serve_all:
+            sar = p.b.serve_all_result
+            if sar is not None and not p.b.conn.closed:
+                problems.append(("serve_all-not-closed", "serve_all() on side B %s (%r) but the side does not report closed" % sar))
+            if sar is None and (p.a.conn.closed or fx.fault_fired):
+                problems.append(("serve_all-running", "the connection ended but serve_all() on side B is still running"))
         for side in (p.a, p.b):
             if side.stream.closed and not side.conn.closed and side.idle:
                 problems.append(("stream-closed-conn-open", "side %s: the stream is closed and the side keeps serving, yet the "
@@ -306,6 +322,66 @@ def run(chk, wname, fault=None, frag=None, timeout=None, close_order="single", j
         fx.close()
 
 
+def run_xclose(chk, peer_stuck, timeout=None):
+    """side A: one thread is blocked waiting for a reply while a second thread of the same process closes the
+    connection.  The waiter must fail with EOFError at once - not when the peer eventually reacts."""
+    fx = Fixture(timeout=timeout)
+    p = fx.pair
+    s = p.sched
+    problems = []
+    res = {}
+    try:
+        root = p.a.call(lambda: p.a.conn.root)
+        meth = p.a.call(lambda: root.stuck if peer_stuck else root.echo)
+        if not peer_stuck:
+            p.autoserve = False        # the peer is simply slow: it does not look at its socket for a while
+
+        def waiter():
+            try:
+                res["w"] = ("ok", meth(1000 if peer_stuck else 7))
+            except BaseException as ex:  # noqa
+                if isinstance(ex, sim.SimAbort):
+                    raise
+                res["w"] = ("exc", type(ex).__name__)
+            res["t"] = s.now
+        w = s.spawn("A-waiter", waiter)
+        try:
+            s.settle()
+            t_close = s.now
+
+            def closer():
+                try:
+                    p.a.conn.close()
+                    res["c"] = "ok"
+                except BaseException as ex:  # noqa
+                    if isinstance(ex, sim.SimAbort):
+                        raise
+                    res["c"] = type(ex).__name__
+            c = s.spawn("A-closer", closer)
+            s.settle()
+            if "w" not in res:
+                # let virtual time pass: whatever else can wake the waiter (the peer's reaction, a timeout) is too late
+                try:
+                    s.run(sim.FirstPolicy(), until=lambda: w.done, max_steps=100000)
+                except sim.Deadlock as ex:
+                    problems.append(("hang", "a request blocked in another thread hangs for ever after close(): %s" % ex))
+                if "w" in res:
+                    problems.append(("hang-until-peer", "a request blocked in another thread only ended (%s) %s virtual seconds after "
+                                     "the local close() returned" % (res["w"], res.get("t", 0) - t_close)))
+            elif res["w"] != ("exc", "EOFError"):
+                problems.append(("wrong-failure", "the blocked request ended with %s instead of EOFError" % (res["w"],)))
+            if res.get("c") != "ok":
+                problems.append(("close-raised", "close() from the second thread: %s" % res.get("c")))
+            if fx.hooks["A"] != 1 or not p.a.conn.closed:
+                problems.append(("closed-without-hook", "after close() from a second thread: closed=%s hooks=%s" % (
+                    p.a.conn.closed, fx.hooks["A"])))
+        except sim.Deadlock as ex:
+            problems.append(("hang", str(ex)))
+        return problems
+    finally:
+        fx.close()
+
+
 def classify(kind, val):
     if kind == "ok":
         return "ok"
@@ -349,8 +425,8 @@ def validate(chk, traces, label):
 TRACEABLE = ("sync", "async")     # workloads whose handlers issue no nested requests (the spec does not model those)
 
 
-def campaign(chk, wname, frag, timeout, orders, kinds, stride=1):
-    events, outcomes, problems, ncalls, ops, white = run(chk, wname, frag=frag, timeout=timeout)
+def campaign(chk, wname, frag, timeout, orders, kinds, stride=1, b_serve_all=False):
+    events, outcomes, problems, ncalls, ops, white = run(chk, wname, frag=frag, timeout=timeout, b_serve_all=b_serve_all)
     chk.evaluated()
     for key, msg in problems:
         chk.violation(key, "C11 %s [workload %s, no fault]" % (msg, wname), {"workload": wname, "fault": None, "frag": frag,
@@ -363,13 +439,15 @@ def campaign(chk, wname, frag, timeout, orders, kinds, stride=1):
                 opname = next(op for (c, s_, op) in ops if c == pos)
                 if kind == "eof" and opname != "recv":
                     continue
-                ev, outc, probs, _, _, _ = run(chk, wname, fault=(pos, kind), frag=frag, timeout=timeout, close_order=order)
+                ev, outc, probs, _, _, _ = run(chk, wname, fault=(pos, kind), frag=frag, timeout=timeout, close_order=order,
+                                               b_serve_all=b_serve_all)
                 chk.evaluated()
-                chk.distinct((wname, frag, timeout, order, pos, kind))
+                chk.distinct((wname, frag, timeout, order, pos, kind, b_serve_all))
                 for key, msg in probs:
                     chk.violation(key, "C11 %s [workload %s, %s at transport call %d (%s), fragmentation %s, close order %s]" % (
                         msg, wname, kind, pos, opname, frag, order),
-                        {"workload": wname, "fault": [pos, kind], "frag": frag, "timeout": timeout, "close_order": order})
+                        {"workload": wname, "fault": [pos, kind], "frag": frag, "timeout": timeout, "close_order": order,
+                         "b_serve_all": b_serve_all})
                 if wname in TRACEABLE and white:
                     traces.append(ev)
         if order != "single":
@@ -391,8 +469,14 @@ def main():
     if chk.replay:
         import json
         rep = json.load(open(chk.replay))["replay"]
+        if rep.get("workload") == "xclose":
+            probs = run_xclose(chk, rep["peer_stuck"], rep["timeout"])
+            for key, msg in probs:
+                print("VIOLATION property=%s replay=%s\n   %s" % (PID, chk.replay, msg))
+            return 1 if probs else 0
         ev, outc, probs, _, _, _ = run(chk, rep["workload"], fault=tuple(rep["fault"]) if rep["fault"] else None,
-                                       frag=rep["frag"], timeout=rep["timeout"], close_order=rep["close_order"])
+                                       frag=rep["frag"], timeout=rep["timeout"], close_order=rep["close_order"],
+                                       b_serve_all=rep.get("b_serve_all", False))
         for key, msg in probs:
             print("VIOLATION property=%s replay=%s\n   %s" % (PID, chk.replay, msg))
         return 1 if probs else 0
@@ -406,14 +490,26 @@ def main():
     traces = []
     total_pos = 0
     if chk.thorough:
-        plan = [(w, frag, to, CLOSE_ORDERS, ("error", "eof"), 1) for w in WORKLOADS for frag in (None, 7, 2)
+        plan = [(w, frag, to, CLOSE_ORDERS, ("error", "eof"), 1, False) for w in WORKLOADS for frag in (None, 7, 2)
                 for to in (None, 30)]
+        plan += [(w, frag, None, ["single"], ("error", "eof"), 1, True) for w in WORKLOADS for frag in (None, 3)]
     else:
-        plan = [("sync", None, None, CLOSE_ORDERS, ("error", "eof"), 1), ("async", None, None, ["single", "both"], ("error",), 1),
-                ("nested", None, None, ["single"], ("error",), 1), ("refs", None, None, ["single", "other-first"], ("error",), 2),
-                ("sync", 3, None, ["single"], ("error",), 5), ("sync", None, 30, ["single"], ("error",), 3)]
-    for (w, frag, to, orders, kinds, stride) in plan:
-        tr, npos = campaign(chk, w, frag, to, orders, kinds, stride)
+        plan = [("sync", None, None, CLOSE_ORDERS, ("error", "eof"), 1, False),
+                ("async", None, None, ["single", "both"], ("error",), 1, False),
+                ("nested", None, None, ["single"], ("error",), 2, False), ("refs", None, None, ["single", "other-first"], ("error",), 3, False),
+                ("sync", 3, None, ["single"], ("error",), 7, False), ("sync", None, 30, ["single"], ("error",), 4, False),
+                ("sync", None, None, ["single"], ("error",), 1, True), ("refs", None, None, ["single"], ("error",), 2, True),
+                ("nested", None, None, ["single"], ("error",), 3, True)]
+    for stuck in (True, False):
+        for to in (None, 30):
+            probs = run_xclose(chk, stuck, to)
+            chk.evaluated()
+            chk.distinct(("xclose", stuck, to))
+            for key, msg in probs:
+                chk.violation("xclose:" + key, "C11 %s [close() from a second thread while a request is blocked; peer %s]" % (
+                    msg, "stuck in a handler" if stuck else "slow"), {"workload": "xclose", "peer_stuck": stuck, "timeout": to})
+    for (w, frag, to, orders, kinds, stride, sa) in plan:
+        tr, npos = campaign(chk, w, frag, to, orders, kinds, stride, b_serve_all=sa)
         traces += tr
         total_pos += npos
         gc.collect()
